@@ -5,6 +5,8 @@ import MaestroVerif.Model.Csv
 import MaestroVerif.Model.Lock
 import MaestroVerif.Model.Expand
 import MaestroVerif.Model.Launcher
+import MaestroVerif.Model.Spec
+import MaestroVerif.Gen.Schema
 open MaestroVerif
 
 /-! Line-protocol driver: one operation per input line, one canonical answer line per operation. -/
@@ -366,6 +368,65 @@ def step (toks : List String) : String :=
   | _ => "bad-op"
 end LaunchDrv
 
+namespace SpecDrv
+open Spec
+
+def takeUntil (stop : Char) (cs : List Char) : List Char × List Char :=
+  let a := cs.takeWhile (· != stop)
+  (a, (cs.drop a.length).drop 1)
+
+def intOf (cs : List Char) : Int :=
+  match cs with
+  | '-' :: r => -((String.ofList r).toNat! : Int)
+  | r => ((String.ofList r).toNat! : Int)
+
+mutual
+partial def parseJ : List Char → Option (Json × List Char)
+  | 'n' :: r => some (.null, r)
+  | 't' :: r => some (.bool true, r)
+  | 'f' :: r => some (.bool false, r)
+  | 'i' :: r => let (a, r') := takeUntil ';' r; some (.int (intOf a), r')
+  | 'd' :: r => let (a, r') := takeUntil ';' r; some (.float (intOf a), r')
+  | 's' :: r => let (a, r') := takeUntil ';' r; some (.str (unhex (String.ofList a)), r')
+  | '[' :: r => (parseArr r []).map fun (l, r') => (.arr l, r')
+  | '{' :: r => (parseObj r []).map fun (l, r') => (.obj l, r')
+  | _ => none
+partial def parseArr : List Char → List Json → Option (List Json × List Char)
+  | ']' :: r, acc => some (acc.reverse, r)
+  | cs, acc => match parseJ cs with
+    | some (v, r) => parseArr r (v :: acc)
+    | none => none
+partial def parseObj : List Char → List (List Char × Json) → Option (List (List Char × Json) × List Char)
+  | '}' :: r, acc => some (acc.reverse, r)
+  | cs, acc =>
+    let (k, r) := takeUntil ':' cs
+    match parseJ r with
+    | some (v, r') => parseObj r' ((unhex (String.ofList k), v) :: acc)
+    | none => none
+end
+
+def fmtOutcome : Outcome → String
+  | .accepted => "accepted" | .rejected => "rejected" | .crash => "crash"
+
+def step (toks : List String) : String :=
+  match toks with
+  | ["spec.load", enc] =>
+    match parseJ enc.toList with
+    | some (j, _) =>
+      let o := load Gen.schemas j
+      if o == .accepted then s!"accepted steps={",".intercalate ((stepNames j).map hex)}" else fmtOutcome o
+    | none => "bad-json"
+  | ["spec.valid", which, enc] =>
+    match parseJ enc.toList with
+    | some (j, _) =>
+      let sch := if which == "description" then Gen.descriptionSchema else if which == "env" then Gen.envSchema
+        else if which == "step" then Gen.stepSchema else Gen.paramSchema
+      if valid schemaFuel sch j then "valid" else "invalid"
+    | none => "bad-json"
+  | ["spec.paramref", s] => if paramRef (unhex s) then "1" else "0"
+  | _ => "bad-op"
+end SpecDrv
+
 structure DrvState where
   dag : Dag.Dag := Dag.empty
   exec : Option ExecDrv.St := none
@@ -385,6 +446,7 @@ def stepLine (st : DrvState) (line : String) : DrvState × String :=
     else if t.startsWith "sched." then (st, SchedDrv.step toks)
     else if t.startsWith "csv." || t.startsWith "lock." then (st, CsvDrv.step toks)
     else if t.startsWith "launch." then (st, LaunchDrv.step toks)
+    else if t.startsWith "spec." then (st, SpecDrv.step toks)
     else if t.startsWith "exp." || t.startsWith "subst." then
       let r := ExpDrv.step st.exp toks
       ({ st with exp := r.1 }, r.2)
